@@ -175,6 +175,7 @@ pub fn cfg_for(ctx: &Ctx, subqueries: bool) -> GenCfg {
     c.correlated_scalar = !ctx.off("gen.correlated_scalar_subquery");
     c.count_star_in_subquery = !ctx.off("gen.count_star_in_subquery");
     c.scalar_subquery = !ctx.off("gen.scalar_subquery");
+    c.correlated_not_in = !ctx.off("gen.correlated_not_in");
     c
 }
 
